@@ -144,6 +144,10 @@ MUTANTS = [
     ("walk-dedup-dropped", "C16", "src/cli/main.rs",
      "                    if seen_files.contains(&path) {\n                        continue;\n                    }\n", "",
      "dedup-not-enforced"),
+    ("loopexit-metadata", "C14", "src/cli/main.rs",
+     "                    if path.is_file() {", "                    if fs::metadata(&path)?.is_file() {", "walk-loop-aborts-on"),
+    ("errstatus-revert", "C13", "src/cli/main.rs",
+     "                                    EXIT_CODE.store(2, Ordering::SeqCst);\n", "", "error-handled-without-status-2"),
     ("worker-skip-send", "C14", "src/cli/main.rs",
      "            fs::write(path, formatted_contents)\n                .with_context(|| format!(\"could not write to {}\", path.display()))?;\n        }",
      "        }\n        fs::write(path, formatted_contents)\n            .with_context(|| format!(\"could not write to {}\", path.display()))?;",
